@@ -310,8 +310,6 @@ theorem rstrip_of_lastNonWs (l : Line) (h : lastNonWs l = true) : rstrip l = l :
     simp at h
     simp [List.dropWhile, h, hl]
 
-/-- the line the repaired `process` actually wraps: without the white space after a final `&` -/
-def wrapped (l : Line) : Line := if lineType l != 3 && endsAmp l then rstrip l else l
 
 theorem processLineF_shape (L : Nat) (hL : 9 < L) (l : Line) (ps : List Line) (h : processLineF L l = .ok ps) :
     (l.length ≤ L ∧ ps = [l]) ∨
@@ -382,7 +380,15 @@ theorem Segs_dirF (k : Nat) (hk : k = 1 ∨ k = 2) (cs ce : Line) (L : Nat) (qs 
 
 theorem run_splitF (L : Nat) (st : St) (l l' : Line) (ps : List Line) (hl' : l' = l ∨ l' = lstrip l)
     (hs : SplitShapeF L (lineType l) l' ps)
-    (hsafe : safeLineF st l = true) : run st ps = step st l := by
+    (hsafe0 : safeLineF st l = true) : run st ps = step st l := by
+  have hsafe : (match classify l with
+      | 0 => true
+      | 1 | 2 => (cutBang ((lstrip l).drop 5)).2.isNone && lastNonWs l
+      | 3 => true
+      | _ => (scan (stmtQ st) (content st l)).2.1.isNone && lastNonWs l) = true := by
+    unfold safeLineF at hsafe0
+    simp only [Bool.and_eq_true] at hsafe0
+    exact hsafe0.2
   obtain ⟨q1, qs, hl'eq, hps, hq1, hke, hq3, _, hseg, hqs0⟩ := hs
   have hstrip : lstrip l' = lstrip l := by rcases hl' with rfl | rfl; rfl; exact lstrip_idem l
   have hstep : step st l' = step st l := by rcases hl' with rfl | rfl; rfl; exact step_lstrip st l
@@ -418,7 +424,7 @@ theorem run_splitF (L : Nat) (st : St) (l l' : Line) (ps : List Line) (hl' : l' 
           rcases hk with rfl | rfl <;> simp [Gen.contEnd] at this
         have hsafe' : (cutBang ((lstrip l).drop 5)).2 = none ∧ lastNonWs l = true := by
           rcases hk with rfl | rfl <;>
-            simpa [safeLineF, hcl, Bool.and_eq_true, Option.isNone_iff_eq_none] using hsafe
+            simpa [hcl, Bool.and_eq_true, Option.isNone_iff_eq_none] using hsafe
         obtain ⟨hbang, hlast⟩ := hsafe'
         rcases hke with ⟨key, hkey, hksuf, hok⟩ | hnd
         · obtain ⟨p, k0, hpk, hk0⟩ := key_dir k hk key q1 hkey hksuf
@@ -477,7 +483,7 @@ theorem run_splitF (L : Nat) (st : St) (l l' : Line) (ps : List Line) (hl' : l' 
       rw [ht.1, ht.2] at hps
       rw [ht.2] at hqs0
       have hqs : qs ≠ [] := fun h0 => by have := hqs0 h0; simp at this
-      simp only [safeLineF, hcl, Bool.and_eq_true, Option.isNone_iff_eq_none] at hsafe
+      simp only [hcl, Bool.and_eq_true, Option.isNone_iff_eq_none] at hsafe
       rw [hps]
       exact run_code_line st l' q1 qs hl'eq hq1 (by rw [hclseq, hcl]) hqs hsegne (by rw [hcont]; exact hsafe.1)
         (hlast' hsafe.2)
